@@ -860,3 +860,54 @@ func PayloadRoots(kind string, value any) []string {
 	})
 	return out
 }
+
+// AllKeywords is the union of the keywords of all kinds.
+func AllKeywords() map[string]bool {
+	out := map[string]bool{}
+	for _, k := range append(append([]string{}, Kinds...), "xml", "externalDocs") {
+		if k == "paths" || k == "responses" {
+			continue
+		}
+		for _, kw := range KeywordsOf(k) {
+			out[kw] = true
+		}
+	}
+	out["default"] = true
+	return out
+}
+
+// CaseFoldCollision reports whether some member name anywhere in v differs from
+// a keyword (of any kind - a sound over-approximation of "a keyword of the same
+// object") by nothing but letter case.
+func CaseFoldCollision(v any) bool {
+	lower := map[string]string{}
+	for k := range AllKeywords() {
+		lower[strings.ToLower(k)] = k
+	}
+	found := false
+	var walk func(n any)
+	walk = func(n any) {
+		if found {
+			return
+		}
+		switch x := n.(type) {
+		case map[string]any:
+			for k, e := range x {
+				name := strings.TrimPrefix(k, dupPrefix)
+				if kw, ok := lower[strings.ToLower(name)]; ok && kw != name {
+					if _, exact := AllKeywords()[name]; !exact {
+						found = true
+						return
+					}
+				}
+				walk(e)
+			}
+		case []any:
+			for _, e := range x {
+				walk(e)
+			}
+		}
+	}
+	walk(v)
+	return found
+}
